@@ -60,6 +60,21 @@ func (s *swamp) PatchExpired(howMany int32, ops []msgpackpatch.Op, condition *ms
 	// expiration-time indexes are built before we try to select.
 	s.buildBeacon(s.expirationTimeBeaconASC, s.expirationTimeBeaconDESC, BeaconTypeExpirationTime)
 
+	// The beacon would compute the budget from the treasures of the expiration
+	// index only, but a record that matches the cap's filter and carries no
+	// expiration (or is being moved inside that index right now) counts too.
+	// Count over the whole swamp here and hand the beacon the remaining budget
+	// with a predicate that matches nothing, so its own arithmetic (and the
+	// CapReached signal derived from it) starts from exactly that budget.
+	if capPredicate != nil {
+		budget := capMax - int32(s.beaconKey.CountMatching(capPredicate))
+		if budget <= 0 {
+			return nil, true, nil
+		}
+		capMax = budget
+		capPredicate = func(treasure.Treasure) bool { return false }
+	}
+
 	selected, capReached := s.expirationTimeBeaconASC.SelectExpiredForPatchWithCap(int(howMany), selectionPredicate, capPredicate, int(capMax))
 	if len(selected) == 0 {
 		return nil, capReached, nil
